@@ -509,6 +509,47 @@ def argmaxMargin (l : List K) : K :=
   | [] => ((1 : Nat) : K)
   | p :: ps => (best - (ps.foldl (fun m q => if m < q.2 then q.2 else m) p.2)) / best
 
+/-! ### 0-D grids (`_compute_geometry_0d`), the dispatcher's remaining branch -/
+
+/-- a point grid: its node(s) and the cell centres given at construction (`PointGrid(pt)`) -/
+structure Grid0 (K : Type) where
+  nodes : List (V3 K)
+  centers : List (V3 K)
+
+def Grid0.move (M : Motion K) (g : Grid0 K) : Grid0 K :=
+  { nodes := g.nodes.map (act M), centers := g.centers.map (act M) }
+
+/-- no faces areas / normals, face centres = nodes, unit volumes, cell centres kept -/
+def geom0 (g : Grid0 K) : Out K :=
+  { fa := [], fc := g.nodes, fn := [], cv := g.centers.map (fun _ => ((1 : Nat) : K)), cc := g.centers }
+
+/-! ### `Grid.cell_diameters` (cell-wise): largest distance between two nodes of the cell -/
+
+def pairDists (sq : K → K) : List (V3 K) → List K
+  | [] => []
+  | p :: l => l.map (fun q => nrm sq (sub p q)) ++ pairDists sq l
+
+/-- `np.amax` -/
+def maxL : List K → K
+  | [] => ((0 : Nat) : K)
+  | a :: l => l.foldl (fun m x => if m < x then x else m) a
+
+def cellDiam (sq : K → K) (ps : List (V3 K)) : K := maxL (pairDists sq ps)
+
+/-! ### the hypotheses of the equivariance theorems as decidable conditions (evaluated by the driver on every case) -/
+
+def wf1 (g : Grid1 K) : Bool := !g.nodes.isEmpty
+
+/-- nodes exist, every cell has a face, no cell volume is zero -/
+def wf2 (sq : K → K) (g : Grid2 K) : Bool :=
+  !g.nodes.isEmpty && g.cells.all (fun c => !c.isEmpty) && (geom2 sq g).cv.all (fun v => !decide (v = ((0 : Nat) : K)))
+
+def faceOk (sq : K → K) (ps : List (V3 K)) : Bool := !ps.isEmpty && !decide (faceArea3 sq ps = ((0 : Nat) : K))
+
+/-- faces have nodes and non-zero area, cells have faces -/
+def wf3 (sq : K → K) (g : Grid3 K) : Bool :=
+  g.faces.all (faceOk sq) && g.cells.all (fun c => !c.isEmpty && c.all (fun f => faceOk sq f.2))
+
 /-! ### elementary quantities named in the property theorems -/
 
 /-- area-weighted normal of the triangle `a b c` (½ (b−a) × (c−a)) and its squared area -/
